@@ -95,7 +95,8 @@ class Rig(object):
         self.tag = nfc.tag.activate(self, target)
         if self.tag is None or not self.card.active:
             raise HarnessError("activation failed")
-        self.const = dict(miu=self.miu, rmiu=self.card.rchunk, fsc=fsc, nRetry=min(int(1 / self.fwt), 5))
+        self.const = dict(miu=self.miu, rmiu=self.card.rchunk, fsc=fsc, nRetry=min(int(1 / self.fwt), 5),
+                          fsd=self.card.fsd, mrecv=max_recv, msend=max_send)
         self.script = dict(typ=typ, fsci=ann_fsci, fwi=ann_fwi, max_send=max_send, max_recv=max_recv, rchunk=rchunk,
                            fates=list(fates), wtx_at=sorted(wtx_at), wtxm=wtxm, ats=ats, ops=[])
 
@@ -378,6 +379,21 @@ def gen_scripts(tier, seed):
                     if L == n * miu:      # a lost block / a lost acknowledge in the middle of the chain of identical blocks
                         scripts.append(base_script(cfg, ops, fates=[DELIVER] * 2 + [LOSE]))
                         scripts.append(base_script(cfg, ops, fates=[DELIVER] * 3 + [LOSE]))
+    # (1e) device limits: send limit below / equal / above the receive limit, values around the FSC table, card FSC above and
+    #      below the send limit, both types: no block handed to the device exceeds min(FSC, send limit) (the command is chained
+    #      accordingly); receive limits stay >= 128 (the FSD the reader announces is not judged)
+    for di, (ms, mr) in enumerate([(64, 256), (40, 256), (24, 128), (128, 128), (256, 128), (256, 256), (100, 300), (17, 256),
+                                   (300, 130)]):
+        for typ in "AB":
+            for fsci in ((2, 5, 8) if quick else range(9)):
+                if quick and (di + fsci + (typ == "B")) % 2:
+                    continue
+                cfg = (typ, fsci, 10, ms, mr, 30)
+                lim = min(FSC_TABLE[fsci], ms)
+                ops = [["apdu", lim - 3, 31, "transceive"], ["apdu", lim - 2, 5, "send_apdu" if lim - 2 >= 4 else "transceive"],
+                       ["apdu", 2 * (lim - 3) + 1, 61, "transceive"]]
+                scripts.append(base_script(cfg, ops))
+                scripts.append(base_script(cfg, ops, fates=[DELIVER] * 3 + [LOSE]))
     # (1c) S(WTX) at every turn of the card in command chaining, response chaining and after a retransmission, with
     #      every fault on the S(WTX) request, the S(WTX) response and the block that follows: what is sent after a
     #      fault must be the block of the state machine (R(NAK) / R(ACK)), never the S(WTX) response again
